@@ -114,6 +114,7 @@ theorem vec_valid_intro (d : Dict) (sz : Nat) (hss : d.ssize = sz) (l : LenTy) (
     (hel : vecElems d (max l.size d.align) s len 0 = .ok ()) : (vecD d l).validateU s = .ok () := by
   have hnot : ¬ len > min (if sz = 0 then usizeMax else floorMul (s.len - max l.size d.align) (max l.align d.align) / sz) l.max := by omega
   simp only [vecD, hr, Res.bind_eq, Res.bind_ok, vecSlots_ok d l s.len hlen, hss, hnot, if_false, hel]
+  split <;> rfl
 
 /-- a vector image whose first `n` element slots hold valid images and whose length field says `n` validates -/
 theorem vec_filled_valid (d : Dict) (hd : Law d) (sz : Nat) (hsz : d.sized = some sz) (l : LenTy) (hl : l.Law)
